@@ -59,16 +59,17 @@ Section Rename.
     (* the tests made before the permission checks, then the permission checks *)
     Ltac perms s v op oc np :=
       destruct (negb (perm_on (f_heap s) op OpenWrite (v_user v))); [stay|];
-      destruct (negb (Nat.eqb oc op) && sticky_refuses (f_heap s) op oc (v_user v)); [stay|];
+      destruct (sticky_refuses (f_heap s) op oc (v_user v)); [stay|];
       destruct (negb (Nat.eqb np op) && negb (perm_on (f_heap s) np OpenWrite (v_user v))); [stay|].
     destruct (get (f_heap s) oc) as [[ch m|dt k id m|lk m]|] eqn:Ego.
     4:{ exfalso. apply get_some in Hoc_lt as (x & Hx). congruence. }
     1:{ (* a directory is moved *)
-      match goal with |- context [if ?b then Some (if ?b2 then ROk else _) else None] =>
+      match goal with |- context [if ?b then Some (if ?b2 then ROk else _) else _] =>
         destruct b; [destruct b2; stay|] end.
-      perms s v op oc np.
       destruct (Nat.eqb_spec oc op) as [->|Hne]; cbn [orb]; [stay|].
+      destruct (Nat.eqb oc np); cbn [orb]; [stay|].
       destruct (is_prefix (pi_path (sr_pi ro) ++ [SLASH]) (pi_path (sr_pi rn))) eqn:Epre; [stay|].
+      perms s v op oc np.
       destruct (is_not_exist (sr_err rn)) eqn:Ene; cbn [negb]; [|stay].
       match goal with |- context [if ?b then (s, RFail EPermDenied) else _] => destruct b; [stay|] end.
       destruct Holk as [->|Holk]; [congruence|].
